@@ -892,6 +892,8 @@ class _Run(object):
                 v = st.get(right.id, ANY)
                 present = pol if isinstance(op, ast.In) else not pol
                 if present:
+                    if v.truthy is False and v.types <= CONTAINERS:
+                        return None          # a container known to be empty (no keyword argument was given) has no member
                     nv = v.only(CONTAINERS | frozenset(["obj"]))
                     if not nv.types:
                         return None
@@ -1285,6 +1287,38 @@ class _Run(object):
                 self.ev(x, cur, node)
         return result
 
+    def _getattr_of_own_fields(self, e):
+        """getattr(self, <v>) where v is the variable of a comprehension over a constant tuple of names, each of them an attribute the
+        class's __init__ assigns unconditionally at its top level: the attribute always exists"""
+        if not (len(e.args) == 2 and isinstance(e.args[0], ast.Name) and e.args[0].id == "self" and isinstance(e.args[1], ast.Name) and
+                self.fi.cls is not None):
+            return False
+        v = e.args[1].id
+        names = None
+        for comp in ast.walk(self.fi.node):
+            if isinstance(comp, (ast.ListComp, ast.DictComp, ast.SetComp, ast.GeneratorExp)) and any(x is e for x in ast.walk(comp)):
+                for ge in comp.generators:
+                    if isinstance(ge.target, ast.Name) and ge.target.id == v:
+                        it = ge.iter
+                        if isinstance(it, ast.Attribute) and isinstance(it.value, ast.Name) and it.value.id == "self":
+                            cb = [st_ for st_ in self.fi.cls.node.body if isinstance(st_, ast.Assign) and
+                                  any(isinstance(t, ast.Name) and t.id == it.attr for t in st_.targets)]
+                            it = cb[0].value if len(cb) == 1 else None
+                        if isinstance(it, (ast.Tuple, ast.List)) and it.elts and all(isinstance(x, ast.Constant) and isinstance(x.value, str) for x in it.elts):
+                            names = [x.value for x in it.elts]
+        if not names:
+            return False
+        init = self.prog.mro_lookup(self.fi.cls, "__init__")
+        if init is None:
+            return False
+        assigned = set()
+        for st_ in init.node.body:
+            if isinstance(st_, ast.Assign):
+                for t in st_.targets:
+                    if isinstance(t, ast.Attribute) and isinstance(t.value, ast.Name) and t.value.id == "self":
+                        assigned.add(t.attr)
+        return all(n in assigned for n in names)
+
     def ev_ListComp(self, e, st, node):
         return self._comp(e, st, node, T("list"))
 
@@ -1386,6 +1420,10 @@ class _Run(object):
         if name in ("float", "int"):
             if a0 is None:
                 return T(name)
+            if name == "float" and "int" in a0.types and not a0.types <= NUM | frozenset(["none"]):
+                # (a value of any JSON type - a member of the request - as opposed to a numeric setting of the configuration)
+                # an integer of arbitrary size (a JSON integer literal has no bound) does not always fit a float
+                self.raise_("OverflowError", node, "float() of an integer too large for a float")
             if a0.types <= NUM:
                 return T(name)
             if a0.types & frozenset(["str", "bytes"]):
@@ -1404,7 +1442,9 @@ class _Run(object):
                 if name in ("set", "frozenset", "dict"):
                     pass
             tag = name if name in ("list", "tuple", "set", "frozenset", "dict") else ("list" if name == "sorted" else "obj")
-            return AV([tag], nonempty=bool(a0 is not None and a0.nonempty), cls="generator" if tag == "obj" else None)
+            empty_ = a0 is None or (a0.truthy is False and a0.types <= CONTAINERS)      # (no argument, or a container known to be empty)
+            return AV([tag], nonempty=bool(a0 is not None and a0.nonempty), cls="generator" if tag == "obj" else None,
+                      truthy=False if (empty_ and tag != "obj") else None)
         if name == "map" and len(e.args) == 2 and isinstance(e.args[0], ast.Name) and e.args[0].id in ("str", "repr", "bool", "type", "id") \
                 and not e.keywords and len(argv) == 2:
             # map(str, X): lazy, and its function is one of the total builtins; X must be iterable
@@ -1423,7 +1463,7 @@ class _Run(object):
         if name == "vars" and len(argv) == 1 and a0 is not None and a0.types <= frozenset(["obj"]) and a0.cls in self.prog_class_names():
             return T("dict")         # the instance dictionary of an object of a package class (none of them is slotted)
         if name == "getattr":
-            if len(argv) < 3:
+            if len(argv) < 3 and not self._getattr_of_own_fields(e):
                 self.raise_("AttributeError", node, "getattr without default")
             self.raise_(ANYEXC, node, "getattr on an arbitrary object may run user code") if a0 is not None and "obj" in a0.types and a0.cls not in ATTRS else None
             return ANY
@@ -1531,7 +1571,19 @@ class _Run(object):
         if good <= frozenset(["set", "frozenset"]) and good:
             if argv and argv[0].types & UNHASHABLE and attr in ("add", "discard", "remove"):
                 self.raise_("TypeError", node, "unhashable member")
-            return NONE if attr in ("add", "discard", "update", "difference_update") else ANY
+            if attr in ("difference", "union", "intersection", "symmetric_difference", "issubset", "issuperset", "isdisjoint",
+                        "difference_update", "intersection_update", "update"):
+                # the operand is iterated and its members hashed: dictionaries (their string keys), sets and strings are fine
+                for a_ in argv:
+                    if not a_.types <= frozenset(["dict", "set", "frozenset", "str", "view"]):
+                        self.raise_("TypeError", node, "set.%s() of %r" % (attr, a_))
+                if attr in ("issubset", "issuperset", "isdisjoint"):
+                    return BOOL
+                if attr in ("difference", "intersection") and base.truthy is False:
+                    return AV(["set"], truthy=False)        # (of an empty set: empty)
+                if attr in ("difference", "union", "intersection", "symmetric_difference"):
+                    return T("set")
+            return NONE if attr in ("add", "discard", "update", "difference_update", "intersection_update") else ANY
         return ANY
 
     def _format_fields(self, e, argv, node):
@@ -1679,7 +1731,9 @@ def _method_types(attr):
         "update": ["dict", "set"], "pop": ["dict", "list", "set"], "popitem": ["dict"], "copy": ["dict", "list", "set"],
         "clear": ["dict", "list", "set"], "append": ["list"], "extend": ["list"], "insert": ["list"], "remove": ["list", "set"],
         "sort": ["list"], "reverse": ["list"], "index": ["list", "tuple", "str"], "add": ["set"], "discard": ["set"],
-        "difference_update": ["set"],
+        "difference_update": ["set"], "difference": ["set", "frozenset"], "union": ["set", "frozenset"], "intersection": ["set", "frozenset"],
+        "symmetric_difference": ["set", "frozenset"], "issubset": ["set", "frozenset"], "issuperset": ["set", "frozenset"],
+        "isdisjoint": ["set", "frozenset"], "intersection_update": ["set"],
     }
     if attr in m:
         return frozenset(m[attr])
